@@ -1,0 +1,73 @@
+//go:build verif
+// +build verif
+
+package util
+
+import "sort"
+
+// VerifLoopBody runs one iteration of the loop of TimeWheel.start without the
+// sleep: the pipeline is drained, then handleTick runs. The statements are a
+// copy of that loop's body (the verification translator compares the two on
+// every run); `return true` stands for the `return` of the "stop" case.
+func (tw *TimeWheel) VerifLoopBody() (stopped bool) {
+	count := 0
+	// 取不到数据或者处理 count 超过 16 * 1024 退出
+	for count >= 0 && count < 16*1024 {
+		select {
+		case item := <-tw.pipelineC:
+			count++
+			// 为了保证获取的顺序，用统一的 pipeline 获取，select 不同的管道不能保证顺序
+			switch item.key {
+			case "add":
+				tw.add(item.value.(*Task))
+			case "del":
+				tw.remove(item.value)
+			case "stop":
+				return true
+			}
+		default:
+			count = -1
+		}
+	}
+	tw.handleTick()
+	return false
+}
+
+// VerifPending returns the number of items waiting in the pipeline and its capacity.
+func (tw *TimeWheel) VerifPending() (pending, capacity int) {
+	return len(tw.pipelineC), cap(tw.pipelineC)
+}
+
+// VerifEntry is one registered key: the bucket that holds its task (-1 if
+// none), the task's round and the position recorded in bucketIndexes (-1 if none).
+type VerifEntry struct {
+	Key     int
+	Bucket  int
+	Round   int
+	Indexed int
+}
+
+// VerifState returns currentIndex and the registered int keys, sorted.
+func (tw *TimeWheel) VerifState() (currentIndex int, entries []VerifEntry) {
+	for i, b := range tw.buckets {
+		for k, t := range b {
+			e := VerifEntry{Key: k.(int), Bucket: i, Round: t.round, Indexed: -1}
+			if idx, ok := tw.bucketIndexes[k]; ok {
+				e.Indexed = idx
+			}
+			entries = append(entries, e)
+		}
+	}
+	for k, idx := range tw.bucketIndexes {
+		if _, ok := tw.buckets[idx][k]; !ok {
+			entries = append(entries, VerifEntry{Key: k.(int), Bucket: -1, Round: 0, Indexed: idx})
+		}
+	}
+	sort.Slice(entries, func(i, j int) bool {
+		if entries[i].Key != entries[j].Key {
+			return entries[i].Key < entries[j].Key
+		}
+		return entries[i].Bucket < entries[j].Bucket
+	})
+	return tw.currentIndex, entries
+}
